@@ -38,6 +38,9 @@ func (self ValueString) Fields() (map[string]*Value, *Interrupt) {
 		}),
 		"repeat": NewValueBuiltinFunction(func(executor Executor, cancelCtx *context.Context, span errors.Span, args ...Value) (*Value, *Interrupt) {
 			count := int(args[0].(ValueInt).Inner)
+			if count < 0 {
+				return nil, NewThrowInterrupt(span, fmt.Sprintf("repeat count must not be negative, got %d", count))
+			}
 			return NewValueString(strings.Repeat(self.Inner, count)), nil
 		}),
 		"split": NewValueBuiltinFunction(func(executor Executor, cancelCtx *context.Context, span errors.Span, args ...Value) (*Value, *Interrupt) {
